@@ -1169,6 +1169,10 @@ func (fc *funcContext) translateConversion(expr ast.Expr, desiredType types.Type
 			if t.Kind() == types.Float32 && exprType.Underlying().(*types.Basic).Kind() == types.Float64 {
 				return fc.formatExpr("$fround(%e)", expr)
 			}
+			if t.Kind() == types.Float32 && isInteger(exprType.Underlying().(*types.Basic)) {
+				// Integers above 2^24 need rounding to single precision.
+				return fc.formatExpr("$fround(%f)", expr)
+			}
 			return fc.formatExpr("%f", expr)
 		case isComplex(t):
 			return fc.formatExpr("new %1s(%2r, %2i)", fc.typeName(desiredType), expr)
